@@ -105,7 +105,7 @@ func c09SockSession(args []string, _ []byte) string {
 		select {
 		case s := <-d:
 			return s
-		case <-time.After(2 * T):
+		case <-time.After(12 * T): // the deferred fill moves tens of MiB through the raw peer
 			return "harness: raw peer command timed out"
 		}
 	}
@@ -344,6 +344,7 @@ func c09Socket(rt *rapid.T) {
 	}
 	sj, _ := json.Marshal(spec)
 	verdict := isolated("c09sock", []string{string(sj)}, nil)
+	verdict = harnessTrouble(verdict)
 	if strings.HasPrefix(verdict, "FAIL:") {
 		rt.Fatalf("%s\nspec %s", verdict, sj)
 	}
